@@ -32,7 +32,8 @@ HeaderPool ==
     H("X Name: whitespace in name", FALSE, "", ""),
     H("X$TABName: tab in name", FALSE, "", "") }
 
-ServerBehaviours == {"200json", "200garbage", "404json", "400text", "500json", "503text", "refused", "closemid"}
+\* "200badutf8": a 200 reply shaped like JSON whose bytes are not UTF-8 (hence not JSON, RFC 8259 s8.1)
+ServerBehaviours == {"200json", "200garbage", "200badutf8", "404json", "400text", "500json", "503text", "refused", "closemid"}
 Succeeds(b) == b = "200json"
 
 \* the introspection document a flag combination selects
